@@ -278,6 +278,10 @@ def r5(rr, repo):
         if flag is None:
             rr.violated('Frame.decode: imdecode is called without a flag (the default decodes to 3 channels also for GRAY frames)', fmod, c, key='decode-flag')
             continue
+        if isinstance(flag, ast.Name):      # the flag was put into a local first: read it off its (one) definition
+            defs = [n for n in walk_scope(dec) if isinstance(n, ast.Assign) and len(n.targets) == 1 and U(n.targets[0]) == flag.id]
+            if len(defs) == 1:
+                flag = defs[0].value
         # leaves of the conditional with the condition under which they are chosen
         def leaves(n, conds):
             if isinstance(n, ast.IfExp):
